@@ -20,8 +20,14 @@ use std::thread;
 use std::time::{Duration, Instant};
 use vcommon::*;
 
+static MODEL_HS_SIZE: std::sync::atomic::AtomicUsize = std::sync::atomic::AtomicUsize::new(usize::MAX);
+
 /// Off of CodecHandover.tla with the real sizes: message 0 is the handshake message.
 fn resolve(cuts: &Value, sizes: &[usize]) -> Result<Vec<usize>, String> {
+	// the byte-exact sweep of the model covers offsets up to its own handshake message size
+	if sizes[0] > MODEL_HS_SIZE.load(std::sync::atomic::Ordering::Relaxed) {
+		return Err(format!("model: handshake message of {} bytes is longer than the model's", sizes[0]));
+	}
 	let mut v = vec![];
 	for c in cuts.as_array().ok_or("cuts")? {
 		let f = c["f"].as_u64().ok_or("cut.f")? as usize;
@@ -36,6 +42,15 @@ fn resolve(cuts: &Value, sizes: &[usize]) -> Result<Vec<usize>, String> {
 			"mid" => HDR + body / 2,
 			"last" => sizes[f] - 1,
 			"end" => sizes[f],
+			// byte-exact split point of the model's (longest) handshake message; not realisable if
+			// the real message is shorter
+			"b" => {
+				let k = c["k"].as_u64().ok_or("cut.k")? as usize;
+				if k >= sizes[f] {
+					return Err("beyond".to_string());
+				}
+				k
+			}
 			x => return Err(format!("cut place {}", x)),
 		};
 		v.push(start + off);
@@ -184,9 +199,12 @@ pub fn run(args: &Args) -> i32 {
 	let cases = read_ndjson(args.req("cases"));
 	let mut out = NdWriter::create(args.req("out"));
 	let pool = Pool::mine(8);
-	let (mut executed, mut coalesced, mut messages) = (0usize, 0usize, 0usize);
+	let (mut executed, mut coalesced, mut messages, mut beyond, mut hs_splits) = (0usize, 0usize, 0usize, 0usize, 0usize);
 	for (i, c) in cases.iter().enumerate() {
 		let case = Case::from_json(i, c);
+		if let Some(m) = c["hs_model_size"].as_u64() {
+			MODEL_HS_SIZE.store(m as usize, std::sync::atomic::Ordering::Relaxed);
+		}
 		let role = c["role"].as_str().unwrap_or("initiate");
 		let rv = VERSIONS[i % 4];
 		let sent: Vec<Sent> = case.frames.iter().enumerate().map(|(fi, f)| render(f, fi, &pool)).collect();
@@ -198,15 +216,23 @@ pub fn run(args: &Args) -> i32 {
 		}
 		// a run that failed for a reason of the machine (sockets) is repeated once
 		let mut res = one(role, rv, follow.clone(), c["cuts"].clone(), sizes.clone());
-		if res.is_err() {
+		if res.is_err() && res.as_ref().err().map(|e| e != "beyond" && !e.starts_with("model")).unwrap_or(false) {
 			res = one(role, rv, follow.clone(), c["cuts"].clone(), sizes.clone());
 		}
 		executed += 1;
 		if c["coalesced"] == json!(true) {
 			coalesced += 1;
 		}
+		if c["cuts"].as_array().map(|a| a.iter().any(|x| x["at"] == json!("b"))).unwrap_or(false) {
+			hs_splits += 1;
+		}
 		let (outcome, read) = match res {
 			Ok(x) => x,
+			Err(e) if e == "beyond" => {
+				executed -= 1;
+				beyond += 1;
+				continue;
+			}
 			Err(e) => {
 				out.put(&json!({"case": c, "what": "io", "detail": e, "frame": 0}));
 				continue;
@@ -235,7 +261,7 @@ pub fn run(args: &Args) -> i32 {
 	out.finish();
 	println!(
 		"{}",
-		json!({"executed": executed, "coalesced_plans": coalesced, "results_read_behind_handshakes": messages, "mismatches": n})
+		json!({"executed": executed, "coalesced_plans": coalesced, "not_realisable": beyond, "handshake_message_split_points": hs_splits, "results_read_behind_handshakes": messages, "mismatches": n})
 	);
 	0
 }
